@@ -521,3 +521,549 @@ Theorem C20_json_payload_well_formed :
     Codec.wfp (DeltaCodec.pv_of_delta (JsonDocs.mk_delta_json hatom udiff ops c conv a b)) = true.
 Proof. exact json_payload_wfp. Qed.
 Print Assumptions C20_json_payload_well_formed.
+
+
+(** ========================================================================
+    Round 3.  (1) PROCESS CRASHES between the steps of the save path, (2) ALL
+    branches of _save_content / load_path_content (json, yaml/yml, toml,
+    csv/tsv, pickle) with the dispatch on the file extension, (3) HISTORIES of
+    several `deep patch` commands.
+
+    Model: Cli/GenModel.v - the save path written once over a record of
+    primitives, returning every intermediate file-system state ([save_tr]:
+    one labelled entry per primitive step; [crash_states] = the initial state
+    and the state of every entry: what a process killed at that point leaves
+    behind - no handler runs, the file object's buffer is dropped).  Shapes:
+    [ShBuf pos] = the json branch (FsModel.save, theorem C20_json_branch_is_save),
+    [ShStream] = the serialiser writes into the open file (yaml, toml, pickle,
+    csv), [ShNone] = the serialiser module is missing / the file type is unknown.
+    The environment [env] holds what the model cannot know (buffer-dependent
+    on-disk contents, atomicity of rename); EVERY theorem quantifies over it.
+    Cli/FormatModel.v - [ext_of] / [fmt_of_ext], [patch_cmd_g], [diff_cmd_g],
+    [run_hist], [run_saves].  Proofs: Cli/GenProofs.v (relational parametricity
+    of the program in its primitives + the program on the two cells A, A.bak),
+    Cli/FormatProofs.v, Cli/FormatPickle.v, Cli/HistProofs.v.
+
+    Process crashes are OUTSIDE the statement of property C20 ("if writing the
+    patched content fails at any step" - an exception at a step of the save
+    path; no code can run after a kill): the theorems below say what IS true. *)
+From DD Require Import Cli.GenModel Cli.GenProofs Cli.FormatModel Cli.FormatProofs Cli.HistProofs Cli.FormatPickle.
+
+(** (1) crash points ------------------------------------------------------- *)
+
+(** EVERY crash point, EVERY fault schedule, branch and environment: where the
+    original content is, is determined by the step reached ([zone_of]):
+      before the first rename completes (a failed rename, a serialisation placed
+      before it)                         A = old, A.bak as before      [ZUntouched]
+      inside a two-phase rename          A = old and A.bak = old       [ZBoth]
+      from the completed rename up to the restoring rename / the final remove
+      (open, serialise, write, close, a FAILED restore or remove)
+                                         A.bak = old, A anything       [ZMoved]
+      after the restoring rename         A = old, A.bak gone           [ZRestored]
+      after the final remove             A = new, A.bak gone           [ZCommitted]
+    and no other path is touched. *)
+Theorem C20_crash_original_by_step :
+  forall (X : Type) (sh : shape) (ev : env X) (keep : bool) (new : option (content X))
+         (A : path) (sch : schedule X) (f : fs X) (old : content X),
+    f A = Some old ->
+    Forall
+      (fun e : entry (fs X) =>
+         zone_inv X old (f (bak A)) new (zone_of sh (fst (fst e)) (snd (fst e))) (view X A (snd e)) /\
+         frame X A f (snd e)) (fst (fst (save_tr sh ev keep new A sch f))).
+Proof. exact crash_zone. Qed.
+Print Assumptions C20_crash_original_by_step.
+
+(** hence at every crash point the original content is in A or in A.bak - unless
+    the call had completed, and then A holds the complete new content *)
+Theorem C20_crash_never_loses_content :
+  forall (X : Type) (sh : shape) (ev : env X) (keep : bool) (new : option (content X))
+         (A : path) (sch : schedule X) (f : fs X) (old : content X) (g : fs X),
+    f A = Some old ->
+    In g (crash_states sh ev keep new A sch f) ->
+    (g A = Some old \/
+     g (bak A) = Some old \/ (exists c : content X, new = Some c /\ g A = Some c /\ g (bak A) = None)) /\
+    frame X A f g.
+Proof. exact crash_never_loses_content. Qed.
+Print Assumptions C20_crash_never_loses_content.
+
+(** the states with a missing / empty / truncated target, characterised: whenever
+    A is neither the complete old nor the complete new content, A.bak holds the
+    old content *)
+Theorem C20_crash_torn_target_has_backup :
+  forall (X : Type) (sh : shape) (ev : env X) (keep : bool) (new : option (content X))
+         (A : path) (sch : schedule X) (f : fs X) (old : content X) (g : fs X),
+    f A = Some old ->
+    In g (crash_states sh ev keep new A sch f) ->
+    g A <> Some old -> (forall c : content X, new = Some c -> g A <> Some c) -> g (bak A) = Some old.
+Proof. exact crash_torn_target_has_backup. Qed.
+Print Assumptions C20_crash_torn_target_has_backup.
+
+(** recovery "if A.bak exists, rename it back" after a crash at ANY point yields
+    the complete old content, or - only if the call had completed - the complete
+    new content; never a mixture.  Guard: no A.bak before the call. *)
+Theorem C20_crash_recover_atomic :
+  forall (X : Type) (sh : shape) (ev : env X) (keep : bool) (new : option (content X))
+         (A : path) (sch : schedule X) (f : fs X) (old : content X) (g : fs X),
+    f A = Some old ->
+    f (bak A) = None ->
+    In g (crash_states sh ev keep new A sch f) ->
+    (recover A g A = Some old \/
+     (exists c : content X, new = Some c /\ g A = Some c /\ recover A g A = Some c)) /\
+    recover A g (bak A) = None /\ frame X A f (recover A g).
+Proof. exact crash_recover_atomic. Qed.
+Print Assumptions C20_crash_recover_atomic.
+
+(** the guard is needed: a stale A.bak + a crash before the first rename *)
+Theorem C20_crash_recover_preexisting_refuted :
+  exists (A : path) (f : fs N) (old stale c : list N) (g : fs N),
+    f A = Some old /\
+    f (bak A) = Some stale /\
+    In g (crash_states (ShBuf DInside) env0 false (Some c) A no_fault f) /\
+    recover A g A <> Some old /\ recover A g A <> Some c.
+Proof. exact crash_recover_preexisting_refuted. Qed.
+Print Assumptions C20_crash_recover_preexisting_refuted.
+
+(** non-vacuity: the nine crash states of a fault-free json run with a two-phase
+    rename; the target is missing / empty / half written in five of them *)
+Example C20_crash_states_example :
+  map (fun g : fs N => (g cx_A, g (bak cx_A)))
+      (crash_states (ShBuf DInside) cx_env false (Some [2%N; 3%N]) cx_A no_fault cx_f) =
+  [(Some [1%N], None); (Some [1%N], Some [1%N]); (None, Some [1%N]); (Some [], Some [1%N]);
+   (Some [], Some [1%N]); (Some [2%N], Some [1%N]); (Some [], Some [1%N]);
+   (Some [2%N; 3%N], Some [1%N]); (Some [2%N; 3%N], None)].
+Proof. exact ex_crash_states. Qed.
+Print Assumptions C20_crash_states_example.
+
+(** the crash states end in the final state of the call *)
+Theorem C20_crash_states_end :
+  forall (X : Type) (sh : shape) (ev : env X) (keep : bool) (new : option (content X))
+         (A : path) (sch : schedule X) (f : fs X) (q : path),
+    last (crash_states sh ev keep new A sch f) f q = fst (save_g sh ev keep new A sch f) q.
+Proof. exact crash_states_end. Qed.
+Print Assumptions C20_crash_states_end.
+
+(** (2) every branch of _save_content ----------------------------------------- *)
+
+(** the generalised program, json shape, plain environment = FsModel.save *)
+Theorem C20_json_branch_is_save :
+  forall (X : Type) (pos : dumps_pos) (keep : bool) (new : option (content X))
+         (A : path) (sch : schedule X) (f : fs X),
+    snd (save_g (ShBuf pos) env0 keep new A sch f) = snd (save pos keep new A sch f) /\
+    (forall q : path, fst (save_g (ShBuf pos) env0 keep new A sch f) q = fst (save pos keep new A sch f) q).
+Proof. exact save_g_json. Qed.
+Print Assumptions C20_json_branch_is_save.
+
+(** EVERY schedule, branch, environment: a normal return is correct *)
+Theorem C20_all_branches_done_is_correct :
+  forall (X : Type) (sh : shape) (ev : env X) (keep : bool) (new : option (content X))
+         (A : path) (sch : schedule X) (f f' : fs X) (old : content X),
+    f A = Some old ->
+    save_g sh ev keep new A sch f = (f', Done) ->
+    exists c : content X,
+      new = Some c /\ f' A = Some c /\ f' (bak A) = (if keep then Some old else None) /\ frame X A f f'.
+Proof. exact save_g_done_correct. Qed.
+Print Assumptions C20_all_branches_done_is_correct.
+
+(** EVERY schedule, branch, environment: a raising call never loses the content *)
+Theorem C20_all_branches_failure_never_loses_content :
+  forall (X : Type) (sh : shape) (ev : env X) (keep : bool) (new : option (content X))
+         (A : path) (sch : schedule X) (f f' : fs X) (old : content X) (k : exn_kind) (s : step),
+    f A = Some old ->
+    save_g sh ev keep new A sch f = (f', Raised k s) ->
+    (f' A = Some old \/ f' (bak A) = Some old) /\ frame X A f f'.
+Proof. exact save_g_raised_keeps_old. Qed.
+Print Assumptions C20_all_branches_failure_never_loses_content.
+
+(** EVERY schedule, branch, environment: a propagating Exception from any step but
+    the restoring rename / final remove leaves A restored and the backup gone *)
+Theorem C20_all_branches_exception_restores :
+  forall (X : Type) (sh : shape) (ev : env X) (keep : bool) (new : option (content X))
+         (A : path) (sch : schedule X) (f f' : fs X) (old : content X) (s : step),
+    f A = Some old ->
+    save_g sh ev keep new A sch f = (f', Raised KExc s) ->
+    s <> SRestore ->
+    s <> SRemove ->
+    f' A = Some old /\
+    (body_step s = true -> (sh = ShBuf DFirst -> s <> SDumps) -> f' (bak A) = None) /\
+    (f (bak A) = None -> f' (bak A) = None) /\ frame X A f f'.
+Proof. exact save_g_exception_restores. Qed.
+Print Assumptions C20_all_branches_exception_restores.
+
+Theorem C20_all_branches_interrupt_keeps_backup :
+  forall (X : Type) (sh : shape) (ev : env X) (keep : bool) (new : option (content X))
+         (A : path) (sch : schedule X) (f f' : fs X) (old : content X) (s : step),
+    f A = Some old ->
+    save_g sh ev keep new A sch f = (f', Raised KBase s) ->
+    body_step s = true -> (sh = ShBuf DFirst -> s <> SDumps) -> f' (bak A) = Some old.
+Proof. exact save_g_interrupt_keeps_backup. Qed.
+Print Assumptions C20_all_branches_interrupt_keeps_backup.
+
+Theorem C20_all_branches_success :
+  forall (X : Type) (sh : shape) (ev : env X) (keep : bool) (c : content X)
+         (A : path) (f : fs X) (old : content X),
+    sh <> ShNone ->
+    f A = Some old ->
+    exists f' : fs X,
+      save_g sh ev keep (Some c) A no_fault f = (f', Done) /\
+      f' A = Some c /\ f' (bak A) = (if keep then Some old else None) /\ frame X A f f'.
+Proof. exact save_g_success. Qed.
+Print Assumptions C20_all_branches_success.
+
+(** one Exception at any step up to and including close, in any branch (a
+    streaming serialiser may already have written part of the file): restored *)
+Theorem C20_all_branches_single_fault_restores :
+  forall (X : Type) (sh : shape) (ev : env X) (keep : bool) (c : content X)
+         (A : path) (f : fs X) (old : content X) (k : step) (ft : fault X),
+    sh <> ShNone ->
+    f A = Some old ->
+    write_step k = true ->
+    fkind ft = KExc ->
+    exists f' : fs X,
+      save_g sh ev keep (Some c) A (single k ft) f = (f', Raised KExc k) /\
+      f' A = Some old /\
+      (k <> SBackup -> (sh = ShBuf DFirst -> k <> SDumps) -> f' (bak A) = None) /\
+      (f (bak A) = None -> f' (bak A) = None) /\ frame X A f f'.
+Proof. exact save_g_single_fault_restores. Qed.
+Print Assumptions C20_all_branches_single_fault_restores.
+
+(** ImportError (tomli_w / yaml missing) or UnsupportedFormatErr - raised after the
+    file was renamed away: restored *)
+Theorem C20_unavailable_serialiser_restores :
+  forall (X : Type) (ev : env X) (keep : bool) (new : option (content X)) (A : path)
+         (f : fs X) (old : content X),
+    f A = Some old ->
+    exists f' : fs X,
+      save_g ShNone ev keep new A no_fault f = (f', Raised KExc SDumps) /\
+      f' A = Some old /\ f' (bak A) = None /\ frame X A f f'.
+Proof. exact save_g_unavailable_restores. Qed.
+Print Assumptions C20_unavailable_serialiser_restores.
+
+(** a streaming serialiser rejects the document half way: restored *)
+Theorem C20_stream_reject_restores :
+  forall (X : Type) (ev : env X) (keep : bool) (A : path) (f : fs X) (old : content X),
+    f A = Some old ->
+    exists f' : fs X,
+      save_g ShStream ev keep None A no_fault f = (f', Raised KExc SDumps) /\
+      f' A = Some old /\ f' (bak A) = None /\ frame X A f f'.
+Proof. exact save_g_stream_reject_restores. Qed.
+Print Assumptions C20_stream_reject_restores.
+
+(** the dispatch on the extension ([path.split('.')[-1]]): exactly eight spellings *)
+Theorem C20_extension_dispatch :
+  forall (e : PyStr.pystr) (fm : fmt),
+    fmt_of_ext e = Some fm <->
+    match fm with
+    | FJson => e = EXT_JSON
+    | FYaml => e = EXT_YAML \/ e = EXT_YML
+    | FToml => e = EXT_TOML
+    | FPickle => e = EXT_PICKLE
+    | FCsv => e = EXT_CSV \/ e = EXT_TSV
+    end.
+Proof. exact fmt_of_ext_cases. Qed.
+Print Assumptions C20_extension_dispatch.
+
+Theorem C20_extension_of_path :
+  (forall (p : list N) (e : PyStr.pystr), has_dot e = false -> ext_of (p ++ DOT :: e) = e) /\
+  (forall p : PyStr.pystr, has_dot p = false -> ext_of p = p).
+Proof. exact (conj ext_of_app ext_of_nodot). Qed.
+Print Assumptions C20_extension_of_path.
+
+(** diff --create-patch, then patch, target of ANY supported type whose modules are
+    present (the other file of any loadable type): the command completes, A holds
+    the serialisation of B's document in A's format, and A now loads as EXACTLY
+    what A's loader makes of that text.  Premises: C01, C14. *)
+Theorem C20_patch_reproduces_any_format :
+  forall (X doc delta : Type) (parse : fmt -> content X -> option doc)
+         (dump : fmt -> doc -> option (content X)) (can_load can_save : fmt -> bool)
+         (pickle : delta -> content X) (unpickle : content X -> option delta)
+         (mk_delta : doc -> doc -> delta) (apply_delta : delta -> doc -> doc),
+    (forall a b : doc, apply_delta (mk_delta a b) a = b) ->
+    (forall d : delta, unpickle (pickle d) = Some d) ->
+    forall (ev : env X) (keep : bool) (A B P : path) (f : fs X) (fa : fmt) (ca : content X)
+           (a b : doc) (pd cb' : content X),
+      fmt_of_path A = Some fa ->
+      can_load fa = true ->
+      can_save fa = true ->
+      f A = Some ca ->
+      parse fa ca = Some a ->
+      load_g parse can_load f B = Some b ->
+      P <> A ->
+      P <> bak A ->
+      diff_cmd_g parse can_load pickle mk_delta A B f = Some pd ->
+      dump fa b = Some cb' ->
+      exists f' : fs X,
+        patch_cmd_g parse dump can_load can_save unpickle apply_delta ev keep A P no_fault
+                    (upd P (Some pd) f) = (f', Done) /\
+        load_g parse can_load f' A = parse fa cb' /\
+        f' A = Some cb' /\
+        f' (bak A) = (if keep then Some ca else None) /\
+        (forall q : path, q <> A -> q <> bak A -> q <> P -> f' q = f q).
+Proof. exact patch_reproduces_g. Qed.
+Print Assumptions C20_patch_reproduces_any_format.
+
+(** for every file type whose codec round-trips the document, diff -> patch
+    reproduces it - and only then *)
+Theorem C20_patch_reproduces_iff_codec_roundtrips :
+  forall (X doc delta : Type) (parse : fmt -> content X -> option doc)
+         (dump : fmt -> doc -> option (content X)) (can_load can_save : fmt -> bool)
+         (pickle : delta -> content X) (unpickle : content X -> option delta)
+         (mk_delta : doc -> doc -> delta) (apply_delta : delta -> doc -> doc),
+    (forall a b : doc, apply_delta (mk_delta a b) a = b) ->
+    (forall d : delta, unpickle (pickle d) = Some d) ->
+    forall (ev : env X) (keep : bool) (A B P : path) (f : fs X) (fa : fmt) (ca : content X)
+           (a b : doc) (pd cb' : content X),
+      fmt_of_path A = Some fa ->
+      can_load fa = true ->
+      can_save fa = true ->
+      f A = Some ca ->
+      parse fa ca = Some a ->
+      load_g parse can_load f B = Some b ->
+      P <> A ->
+      P <> bak A ->
+      diff_cmd_g parse can_load pickle mk_delta A B f = Some pd ->
+      dump fa b = Some cb' ->
+      exists f' : fs X,
+        patch_cmd_g parse dump can_load can_save unpickle apply_delta ev keep A P no_fault
+                    (upd P (Some pd) f) = (f', Done) /\
+        (load_g parse can_load f' A = Some b <-> parse fa cb' = Some b).
+Proof. exact patch_reproduces_iff_codec_roundtrips. Qed.
+Print Assumptions C20_patch_reproduces_iff_codec_roundtrips.
+
+(** the round-trip hypothesis cannot be dropped (a codec that forgets part of the
+    value, as csv forgets types): all other premises hold, the command completes,
+    A does not load as B's document.  Real codecs outside the hypothesis are
+    replayed on the implementation at every run (harness: FORMAT_WITNESSES). *)
+Theorem C20_codec_roundtrip_needed_refuted :
+  exists (A B P : path) (f : fs N) (b : N) (pd : list N),
+    (forall a b0 : N, tx_apply (tx_mk a b0) a = b0) /\
+    (forall d : N, tx_unpickle (tx_pickle d) = Some d) /\
+    fmt_of_path A = Some FCsv /\
+    load_g tx_parse (fun _ => true) f B = Some b /\
+    diff_cmd_g tx_parse (fun _ => true) tx_pickle tx_mk A B f = Some pd /\
+    snd (patch_cmd_g tx_parse tx_dump (fun _ => true) (fun _ => true) tx_unpickle tx_apply
+                     env0 false A P no_fault (upd P (Some pd) f)) = Done /\
+    load_g tx_parse (fun _ => true)
+           (fst (patch_cmd_g tx_parse tx_dump (fun _ => true) (fun _ => true) tx_unpickle tx_apply
+                             env0 false A P no_fault (upd P (Some pd) f))) A <> Some b.
+Proof. exact codec_roundtrip_needed_refuted. Qed.
+Print Assumptions C20_codec_roundtrip_needed_refuted.
+
+(** the serialiser of A's type rejects B's document (csv: an empty list; toml: a
+    None; json: a complex number out of a csv file): `deep patch` fails, A keeps
+    its bytes, no backup is left *)
+Theorem C20_patch_unserialisable_restores_any_format :
+  forall (X doc delta : Type) (parse : fmt -> content X -> option doc)
+         (dump : fmt -> doc -> option (content X)) (can_load can_save : fmt -> bool)
+         (pickle : delta -> content X) (unpickle : content X -> option delta)
+         (mk_delta : doc -> doc -> delta) (apply_delta : delta -> doc -> doc),
+    (forall a b : doc, apply_delta (mk_delta a b) a = b) ->
+    (forall d : delta, unpickle (pickle d) = Some d) ->
+    forall (ev : env X) (keep : bool) (A B P : path) (f : fs X) (fa : fmt) (ca : content X)
+           (a b : doc) (pd : content X),
+      fmt_of_path A = Some fa ->
+      can_load fa = true ->
+      can_save fa = true ->
+      f A = Some ca ->
+      parse fa ca = Some a ->
+      load_g parse can_load f B = Some b ->
+      P <> A ->
+      P <> bak A ->
+      f (bak A) = None ->
+      diff_cmd_g parse can_load pickle mk_delta A B f = Some pd ->
+      dump fa b = None ->
+      exists f' : fs X,
+        patch_cmd_g parse dump can_load can_save unpickle apply_delta ev keep A P no_fault
+                    (upd P (Some pd) f) = (f', Raised KExc SDumps) /\
+        f' A = Some ca /\
+        f' (bak A) = None /\ (forall q : path, q <> A -> q <> bak A -> q <> P -> f' q = f q).
+Proof. exact patch_g_unserialisable_restores. Qed.
+Print Assumptions C20_patch_unserialisable_restores_any_format.
+
+Theorem C20_patch_single_fault_restores_any_format :
+  forall (X doc delta : Type) (parse : fmt -> content X -> option doc)
+         (dump : fmt -> doc -> option (content X)) (can_load can_save : fmt -> bool)
+         (unpickle : content X -> option delta) (apply_delta : delta -> doc -> doc)
+         (ev : env X) (keep debug : bool) (A P : path) (f : fs X) (fa : fmt) (ca : content X)
+         (a : doc) (dl : delta) (cnew : content X) (k : step) (ft : fault X),
+    fmt_of_path A = Some fa ->
+    can_load fa = true ->
+    can_save fa = true ->
+    f A = Some ca ->
+    parse fa ca = Some a ->
+    match f P with
+    | Some c => unpickle c
+    | None => None
+    end = Some dl ->
+    dump fa (apply_delta dl a) = Some cnew ->
+    f (bak A) = None ->
+    write_step k = true \/ k = SLoadDelta \/ k = SLoadDoc \/ k = SApply ->
+    fkind ft = KExc ->
+    exists f' : fs X,
+      patch_cmd_g parse dump can_load can_save unpickle apply_delta ev keep A P (single k ft) f =
+      (f', Raised KExc k) /\
+      f' A = Some ca /\
+      f' (bak A) = None /\
+      (forall q : path, q <> A -> q <> bak A -> f' q = f q) /\ cli_report debug (Raised KExc k) <> CExit 0.
+Proof. exact patch_g_single_fault_restores. Qed.
+Print Assumptions C20_patch_single_fault_restores_any_format.
+
+(** unknown extension, parser module missing, unreadable content: nothing is touched *)
+Theorem C20_patch_unloadable_untouched :
+  forall (X doc delta : Type) (parse : fmt -> content X -> option doc)
+         (dump : fmt -> doc -> option (content X)) (can_load can_save : fmt -> bool)
+         (unpickle : content X -> option delta) (apply_delta : delta -> doc -> doc)
+         (ev : env X) (keep : bool) (A P : path) (sch : schedule X) (f : fs X),
+    load_g parse can_load f A = None ->
+    exists (k : exn_kind) (s : step),
+      patch_cmd_g parse dump can_load can_save unpickle apply_delta ev keep A P sch f = (f, Raised k s) /\
+      (s = SLoadDelta \/ s = SLoadDoc).
+Proof. exact patch_g_unloadable_untouched. Qed.
+Print Assumptions C20_patch_unloadable_untouched.
+
+(** on a .json path [patch_cmd_g] is FsModel.patch_cmd *)
+Theorem C20_patch_cmd_json_instance :
+  forall (X doc delta : Type) (parse : fmt -> content X -> option doc)
+         (dump : fmt -> doc -> option (content X)) (can_load can_save : fmt -> bool)
+         (unpickle : content X -> option delta) (apply_delta : delta -> doc -> doc)
+         (keep : bool) (A P : path) (sch : schedule X) (f : fs X),
+    fmt_of_path A = Some FJson ->
+    can_load FJson = true ->
+    can_save FJson = true ->
+    snd (patch_cmd_g parse dump can_load can_save unpickle apply_delta env0 keep A P sch f) =
+    snd (patch_cmd (parse FJson) (dump FJson) unpickle apply_delta DInside keep A P sch f) /\
+    (forall q : path,
+        fst (patch_cmd_g parse dump can_load can_save unpickle apply_delta env0 keep A P sch f) q =
+        fst (patch_cmd (parse FJson) (dump FJson) unpickle apply_delta DInside keep A P sch f) q).
+Proof. exact patch_cmd_g_json. Qed.
+Print Assumptions C20_patch_cmd_json_instance.
+
+(** the pickle branch with the codec of the C14 block: the round-trip hypothesis is
+    a theorem (every well-formed payload over resolvable classes) *)
+Theorem C20_pickle_codec_roundtrips :
+  forall (w : Vm.world) (parse0 : fmt -> list Vm.op -> option Codec.pv)
+         (dump0 : fmt -> Codec.pv -> option (list Vm.op)) (d : Codec.pv) (c : list Vm.op),
+    CodecProofs.calls_ok w ->
+    CodecProofs.types_ok w d ->
+    Codec.wfp d = true -> dump_p dump0 FPickle d = Some c -> parse_p w parse0 FPickle c = Some d.
+Proof. exact pickle_codec_roundtrips. Qed.
+Print Assumptions C20_pickle_codec_roundtrips.
+
+Theorem C20_patch_reproduces_pickle_docs :
+  forall (w : Vm.world) (parse0 : fmt -> list Vm.op -> option Codec.pv)
+         (dump0 : fmt -> Codec.pv -> option (list Vm.op)) (can_load can_save : fmt -> bool)
+         (delta : Type) (pickle : delta -> list Vm.op) (unpickle : list Vm.op -> option delta)
+         (mk_delta : Codec.pv -> Codec.pv -> delta) (apply_delta : delta -> Codec.pv -> Codec.pv),
+    (forall a b : Codec.pv, apply_delta (mk_delta a b) a = b) ->
+    (forall d : delta, unpickle (pickle d) = Some d) ->
+    forall (ev : env Vm.op) (keep : bool) (A B P : path) (f : fs Vm.op) (ca : content Vm.op)
+           (a b : Codec.pv) (pd : content Vm.op),
+      fmt_of_path A = Some FPickle ->
+      can_load FPickle = true ->
+      can_save FPickle = true ->
+      CodecProofs.calls_ok w ->
+      CodecProofs.types_ok w b ->
+      Codec.wfp b = true ->
+      f A = Some ca ->
+      Codec.load w ca = Some a ->
+      load_g (parse_p w parse0) can_load f B = Some b ->
+      P <> A ->
+      P <> bak A ->
+      diff_cmd_g (parse_p w parse0) can_load pickle mk_delta A B f = Some pd ->
+      exists f' : fs Vm.op,
+        patch_cmd_g (parse_p w parse0) (dump_p dump0) can_load can_save unpickle apply_delta ev keep A P
+                    no_fault (upd P (Some pd) f) = (f', Done) /\
+        load_g (parse_p w parse0) can_load f' A = Some b /\
+        f' A = Some (Codec.enc_prog b) /\
+        f' (bak A) = (if keep then Some ca else None) /\
+        (forall q : path, q <> A -> q <> bak A -> q <> P -> f' q = f q).
+Proof. exact patch_reproduces_pickle_docs. Qed.
+Print Assumptions C20_patch_reproduces_pickle_docs.
+
+(** (3) histories ------------------------------------------------------------ *)
+
+(** ONE `deep patch` under ANY schedule whose debris does not load: the invariant
+    "the complete version [cur] is in A, or in A.bak while A does not load" is
+    kept for [cur], or the command wrote its own content completely *)
+Theorem C20_history_step :
+  forall (X doc delta : Type) (parse : fmt -> content X -> option doc)
+         (dump : fmt -> doc -> option (content X)) (can_load can_save : fmt -> bool)
+         (unpickle : content X -> option delta) (apply_delta : delta -> doc -> doc)
+         (ev : env X) (keep : bool) (A P : path) (sch : schedule X) (f f' : fs X)
+         (o : outcome) (cur : content X) (fa : fmt),
+    fmt_of_path A = Some fa ->
+    debris_unloadable parse fa ev sch ->
+    Inv parse can_load A f cur ->
+    patch_cmd_g parse dump can_load can_save unpickle apply_delta ev keep A P sch f = (f', o) ->
+    (forall q : path, q <> A -> q <> bak A -> f' q = f q) /\
+    (Inv parse can_load A f' cur \/
+     (exists (dl : delta) (a : doc) (c : content X),
+         parse fa cur = Some a /\ dump fa (apply_delta dl a) = Some c /\ f' A = Some c)) /\
+    (o = Done -> f A = Some cur /\ f' (bak A) = (if keep then Some cur else None)).
+Proof. exact patch_g_inv_step. Qed.
+Print Assumptions C20_history_step.
+
+(** ANY sequence of `deep patch` commands on A - successful, failed, interrupted,
+    in any order, under ANY fault schedules whose debris does not load: a complete
+    version (a member of any set [Good] that contains the initial content and is
+    closed under load / apply a delta / serialise) is in A, or in A.bak while A
+    does not load; no other file changes *)
+Theorem C20_history_good_version_survives :
+  forall (X doc delta : Type) (parse : fmt -> content X -> option doc)
+         (dump : fmt -> doc -> option (content X)) (can_load can_save : fmt -> bool)
+         (unpickle : content X -> option delta) (apply_delta : delta -> doc -> doc)
+         (fa : fmt) (Good : content X -> Prop),
+    (forall (c : content X) (a : doc) (dl : delta) (c' : content X),
+        Good c -> parse fa c = Some a -> dump fa (apply_delta dl a) = Some c' -> Good c') ->
+    forall (A : path) (cs : list (cmd X)) (f : fs X),
+      fmt_of_path A = Some fa ->
+      Forall (fun c : cmd X => debris_unloadable parse fa (c_env c) (c_sch c)) cs ->
+      (exists cur : content X, Good cur /\ Inv parse can_load A f cur) ->
+      (exists cur' : content X,
+          Good cur' /\
+          Inv parse can_load A (fst (run_hist parse dump can_load can_save unpickle apply_delta A cs f)) cur') /\
+      (forall q : path,
+          q <> A ->
+          q <> bak A -> fst (run_hist parse dump can_load can_save unpickle apply_delta A cs f) q = f q).
+Proof. exact hist_good_version_survives. Qed.
+Print Assumptions C20_history_good_version_survives.
+
+(** the debris guard is needed: two interrupted patches whose debris loads *)
+Theorem C20_history_loadable_debris_refuted :
+  exists (A _ : path) (f : fs N) (cs : list (cmd N)),
+    fmt_of_path A = Some FJson /\
+    (exists cur : list N, hx_Good cur /\ Inv hx_parse (fun _ : fmt => true) A f cur) /\
+    ~ (exists cur : list N,
+          hx_Good cur /\
+          Inv hx_parse (fun _ : fmt => true) A
+              (fst (run_hist hx_parse hx_dump (fun _ : fmt => true) (fun _ : fmt => true) hx_unpickle
+                             (fun d _ : N => d) A cs f)) cur).
+Proof. exact hist_loadable_debris_refuted. Qed.
+Print Assumptions C20_history_loadable_debris_refuted.
+
+(** ANY sequence of save_content_to_path calls in which every failure is clean (an
+    Exception rolled back, or a failure before the rename): (A, A.bak) is EXACTLY
+    what the sequential specification [spec_saves] says - a completed call installs
+    its content and keeps the previous one iff keep_backup, a call failing before
+    the rename changes nothing, a call failing after it restores A and consumes
+    an earlier backup file *)
+Theorem C20_history_clean_exact :
+  forall (X : Type) (A : path) (cs : list (scmd X)) (f : fs X) (old : content X),
+    f A = Some old ->
+    all_clean cs (snd (run_saves A cs f)) = true ->
+    view X A (fst (run_saves A cs f)) = spec_saves cs (snd (run_saves A cs f)) (view X A f) /\
+    frame X A f (fst (run_saves A cs f)).
+Proof. exact saves_clean_exact. Qed.
+Print Assumptions C20_history_clean_exact.
+
+(** patch --backup, then a patch whose write fails: A is restored, the backup of
+    the first patch is gone (inside the statement: "no stray backup remains") *)
+Example C20_failed_patch_consumes_backup :
+  let cs := [hx_cmd true (Some [2%N]) no_fault;
+             hx_cmd true (Some [3%N]) (single SWrite {| fkind := KExc; fdisk := Some [] |})] in
+  let r := run_saves hx_A cs hx_f in
+  snd r = [Done; Raised KExc SWrite] /\
+  fst r hx_A = Some [2%N] /\
+  fst r (bak hx_A) = None /\
+  all_clean cs (snd r) = true /\ spec_saves cs (snd r) (Some [1%N], None) = (Some [2%N], None).
+Proof. exact ex_failed_patch_consumes_backup. Qed.
+Print Assumptions C20_failed_patch_consumes_backup.
